@@ -145,6 +145,10 @@ template <typename F> static void op_ternary(const Case& c, Outcome& o) {
     else { F lo = 0, hi = 0; bool first = true; const F v[3] = {x, y, z}; for (F t : v) if (t == t) { if (first) { lo = hi = t; first = false; } else { if (t < lo) lo = t; if (t > hi) hi = t; } }
       o.exp(FT<F>::bits(lo), FT<F>::bits(hi)); if (!(g == lo)) { o.bad(5, "fmin(a,b,c): not the minimum of the non-NaN operands"); return; } if (!(h == hi)) { o.bad(6, "fmax(a,b,c): not the maximum of the non-NaN operands"); return; } }
     if (!anynan) { F a = glm::min(x, y, z), b = glm::max(x, y, z); F lo = x < y ? x : y; if (z < lo) lo = z; F hi = x > y ? x : y; if (z > hi) hi = z; if (!(a == lo) || !(b == hi)) { o.res(FT<F>::bits(a), FT<F>::bits(b)); o.exp(FT<F>::bits(lo), FT<F>::bits(hi)); o.bad(7, "min/max of three values"); return; } } }
+  // mix(x, y, bool) and mix(vec, vec, bvec) SELECT: the operand that is not selected has no effect, whatever it is (inf, NaN), and the selected one is returned as it is
+  { F s0 = glm::mix(x, y, false), s1 = glm::mix(x, y, true); glm::vec<3, F> v = glm::mix(glm::vec<3, F>(x, y, z), glm::vec<3, F>(y, z, x), glm::vec<3, bool>(false, true, false)), vb = glm::mix(glm::vec<3, F>(x, y, z), glm::vec<3, F>(y, z, x), true);
+    if (FT<F>::bits(s0) != FT<F>::bits(x) || FT<F>::bits(s1) != FT<F>::bits(y) || FT<F>::bits(v.x) != FT<F>::bits(x) || FT<F>::bits(v.y) != FT<F>::bits(z) || FT<F>::bits(v.z) != FT<F>::bits(z) || FT<F>::bits(vb.x) != FT<F>::bits(y) || FT<F>::bits(vb.y) != FT<F>::bits(z) || FT<F>::bits(vb.z) != FT<F>::bits(x)) {
+      o.res(FT<F>::bits(v.x), FT<F>::bits(v.y)); o.exp(FT<F>::bits(x), FT<F>::bits(z)); o.bad(13, "mix with a bool / bvec selector: not exactly the selected operand"); return; } }
   if (anynan || !finite(x) || !finite(y) || !finite(z)) return;
   // mix(x,y,a) = x*(1-a) + y*a within rounding of the formula
   { W t1 = (W)x * ((W)1 - (W)z), t2 = (W)y * (W)z, ref = t1 + t2, mag = std::fabs(t1) + std::fabs(t2) + std::fabs((W)x) * u; F g = glm::mix(x, y, z);
